@@ -1,1 +1,132 @@
-From WV Require Import Model.ParseM.
+(* C13 - debug names stay attached to the same entities.  Statements only; proofs in Proofs/Names.v.
+   [kind_rt x S n l out]: the emitted name map [out] of one kind contains (j, nm) iff some in-range input index i
+   has nm as its (last) name and is emitted at index j - so no name moves and none is lost -, sorted by index.
+   For functions, tables, memories, globals, element and data segments the emitted map is moreover EQUAL to the
+   sorted, renumbered, in-range, last-entry-wins input map; for types a merged type carries the name of the last
+   entry that resolves to it; for locals, names come out at the slot the emitter assigns to that local, in the
+   function at its emitted index, and names of locals that are not emitted are dropped; the module name is kept.
+   A stale local-names entry (unknown function) is skipped (this used to abort the section: see known_findings.json).
+   With synthetic names switched on, unnamed functions additionally get names (last theorem): the exact statements
+   for functions are therefore under cf_synthetic_names = false. *)
+From Coq Require Import List NArith ZArith Bool Arith Lia Permutation Sorted.
+Import ListNotations.
+From WV Require Import Gen.Ops Model.Common Model.IR Model.Arena Model.Traversal Model.EmitFn Model.Locals
+                       Model.ParseFn Model.ModuleM Model.ParseM Model.EmitM Gen.Attrs.
+From WV Require Import Proofs.Arena Proofs.Order Proofs.IndexMaps.
+Local Open Scope nat_scope.
+From WV Require Import Proofs.Names.
+Local Open Scope nat_scope.
+
+Theorem c13_names_roundtrip : forall cf ver w s ilen dw e,
+  parseM cf ver w = POk s -> emitM (ps_m s) ilen dw = Ok e -> cf_skip_name cf = false ->
+  let ids := ps_ids s in let x := em_x2i e in let ns := name_sections w in
+  exists s_nm pre post,
+    em_secs e = pre ++ s_nm ++ post /\ (s_nm = [] \/ s_nm = [S_Custom (CS_Name (Some (names_of s_nm)))]) /\
+    let out := names_of s_nm in
+    wn_module out = last_module_name ns /\
+    (cf_synthetic_names cf = false ->
+       kind_rt x S_func (length (ii_funcs ids)) (flat_map wn_funcs ns) (wn_funcs out)) /\
+    kind_rt x S_table (length (ii_tables ids)) (flat_map wn_tables ns) (wn_tables out) /\
+    kind_rt x S_memory (length (ii_memories ids)) (flat_map wn_mems ns) (wn_mems out) /\
+    kind_rt x S_global (length (ii_globals ids)) (flat_map wn_globals ns) (wn_globals out) /\
+    kind_rt x S_elem (length (ii_elements ids)) (flat_map wn_elems ns) (wn_elems out) /\
+    kind_rt x S_data (length (ii_data ids)) (flat_map wn_data ns) (wn_data out).
+Proof. exact names_roundtrip. Qed.
+
+Theorem c13_no_name_moves x S n l out j nm : kind_rt x S n l out -> In (j, nm) out ->
+  exists i, N.to_nat i < n /\ get_idx x S i = Ok j /\ last_name l i = Some nm.
+Proof. exact (kind_rt_no_move x S n l out j nm). Qed.
+
+Theorem c13_no_name_lost x S n l out i nm : kind_rt x S n l out -> N.to_nat i < n -> last_name l i = Some nm ->
+  exists j, get_idx x S i = Ok j /\ In (j, nm) out.
+Proof. exact (kind_rt_no_loss x S n l out i nm). Qed.
+
+Theorem c13_functions_exact : forall cf ver w s ilen dw e,
+  parseM cf ver w = POk s -> emitM (ps_m s) ilen dw = Ok e -> cf_skip_name cf = false -> cf_synthetic_names cf = false ->
+  exists s_nm pre post,
+    em_secs e = pre ++ s_nm ++ post /\ (s_nm = [] \/ s_nm = [S_Custom (CS_Name (Some (names_of s_nm)))]) /\
+    rt_eq (em_x2i e) S_func (length (ii_funcs (ps_ids s))) (flat_map wn_funcs (name_sections w)) (wn_funcs (names_of s_nm)).
+Proof. exact names_roundtrip_funcs_eq. Qed.
+
+Theorem c13_tables_memories_globals_exact : forall cf ver w s ilen dw e,
+  parseM cf ver w = POk s -> emitM (ps_m s) ilen dw = Ok e -> cf_skip_name cf = false ->
+  let ids := ps_ids s in let x := em_x2i e in let ns := name_sections w in
+  exists s_nm pre post,
+    em_secs e = pre ++ s_nm ++ post /\ (s_nm = [] \/ s_nm = [S_Custom (CS_Name (Some (names_of s_nm)))]) /\
+    let out := names_of s_nm in
+    rt_eq x S_table (length (ii_tables ids)) (flat_map wn_tables ns) (wn_tables out) /\
+    rt_eq x S_memory (length (ii_memories ids)) (flat_map wn_mems ns) (wn_mems out) /\
+    rt_eq x S_global (length (ii_globals ids)) (flat_map wn_globals ns) (wn_globals out).
+Proof. exact names_roundtrip_tmg_eq. Qed.
+
+Theorem c13_elements_data_exact : forall cf ver w s ilen dw e,
+  parseM cf ver w = POk s -> emitM (ps_m s) ilen dw = Ok e -> cf_skip_name cf = false ->
+  let ids := ps_ids s in let ns := name_sections w in
+  exists s_nm pre post,
+    em_secs e = pre ++ s_nm ++ post /\ (s_nm = [] \/ s_nm = [S_Custom (CS_Name (Some (names_of s_nm)))]) /\
+    wn_elems (names_of s_nm) =
+      sort_nm (filter (fun p => N.to_nat (fst p) <? length (ii_elements ids)) (dedupe_last (flat_map wn_elems ns))) /\
+    wn_data (names_of s_nm) =
+      sort_nm (filter (fun p => N.to_nat (fst p) <? length (ii_data ids)) (dedupe_last (flat_map wn_data ns))).
+Proof. exact names_roundtrip_elements_data. Qed.
+
+Theorem c13_types : forall cf ver w s ilen dw e,
+  parseM cf ver w = POk s -> emitM (ps_m s) ilen dw = Ok e -> cf_skip_name cf = false ->
+  let ids := ps_ids s in let x := em_x2i e in let l := flat_map wn_types (name_sections w) in
+  exists s_nm pre post,
+    em_secs e = pre ++ s_nm ++ post /\ (s_nm = [] \/ s_nm = [S_Custom (CS_Name (Some (names_of s_nm)))]) /\
+    let out := wn_types (names_of s_nm) in
+    (forall j nm, In (j, nm) out <->
+       exists id, N.to_nat id < length (items (Arena.arena (m_types (ps_m s)))) /\
+                  last_for (ii_types ids) l id = Some nm /\ get_idx x S_type id = Ok j) /\
+    (forall id nm, N.to_nat id < length (items (Arena.arena (m_types (ps_m s)))) -> last_for (ii_types ids) l id = Some nm ->
+       exists j, get_idx x S_type id = Ok j /\ In (j, nm) out) /\
+    StronglySorted N.lt (map fst out).
+Proof. exact names_roundtrip_types. Qed.
+
+Theorem c13_locals : forall cf ver w s ilen dw e,
+  parseM cf ver w = POk s -> emitM (ps_m s) ilen dw = Ok e -> cf_skip_name cf = false -> cf_synthetic_names cf = false ->
+  let m := ps_m s in let x := em_x2i e in let L := local_entries cf (ps_ids s) (name_sections w) in
+  exists s_nm pre post,
+    em_secs e = pre ++ s_nm ++ post /\ (s_nm = [] \/ s_nm = [S_Custom (CS_Name (Some (names_of s_nm)))]) /\
+    (forall fi lnames, In (fi, lnames) (wn_locals (names_of s_nm)) <->
+       exists fid f ef, In (fid, f) (aiter (m_funcs m)) /\ find (fun ef => N.eqb (ef_id ef) fid) (em_fns e) = Some ef /\
+                        fn_local_names m ef <> [] /\ get_idx x S_func fid = Ok fi /\ lnames = sort_nm (fn_local_names m ef)) /\
+    (forall ef slot n, In (slot, n) (sort_nm (fn_local_names m ef)) <->
+       exists lid lo q, In lid (ef_used ef) /\ aget (m_locals m) lid = Some lo /\ last_name L lid = Some n /\
+                        find (fun q => N.eqb (fst q) lid) (ef_lmap ef) = Some q /\ snd q = slot).
+Proof. exact local_names_roundtrip_partial. Qed.
+
+Theorem c13_locals_no_loss : forall cf ver w s ilen dw e,
+  parseM cf ver w = POk s -> emitM (ps_m s) ilen dw = Ok e -> cf_skip_name cf = false ->
+  let m := ps_m s in let L := local_entries cf (ps_ids s) (name_sections w) in
+  forall ef lid lo q n, In lid (ef_used ef) -> aget (m_locals m) lid = Some lo -> last_name L lid = Some n ->
+    find (fun q => N.eqb (fst q) lid) (ef_lmap ef) = Some q -> In (snd q, n) (sort_nm (fn_local_names m ef)).
+Proof. exact local_names_roundtrip_no_loss. Qed.
+
+Theorem c13_module_name_in : forall cf ver w s, parseM cf ver w = POk s ->
+  m_name (ps_m s) = last_module_name (name_sections w).
+Proof. exact module_name_parse. Qed.
+
+Theorem c13_module_name_out : forall m ilen dw e, emitM m ilen dw = Ok e -> cf_skip_name (m_config m) = false ->
+  exists s_nm pre post, em_secs e = pre ++ s_nm ++ post /\
+    (s_nm = [] \/ s_nm = [S_Custom (CS_Name (Some (names_of s_nm)))]) /\ wn_module (names_of s_nm) = m_name m.
+Proof. exact module_name_emit. Qed.
+
+Theorem c13_stale_local_entry_skipped : forall l m ids, exists m', apply_local_names m ids l = Some m'.
+Proof. exact apply_local_names_some. Qed.
+
+(* (Proofs/Names.v: names_roundtrip_funcs_synthetic_refuted is the witness for the synthetic-names remark above.) *)
+
+Print Assumptions c13_names_roundtrip.
+Print Assumptions c13_no_name_moves.
+Print Assumptions c13_no_name_lost.
+Print Assumptions c13_functions_exact.
+Print Assumptions c13_tables_memories_globals_exact.
+Print Assumptions c13_elements_data_exact.
+Print Assumptions c13_types.
+Print Assumptions c13_locals.
+Print Assumptions c13_locals_no_loss.
+Print Assumptions c13_module_name_in.
+Print Assumptions c13_module_name_out.
+Print Assumptions c13_stale_local_entry_skipped.
